@@ -37,7 +37,8 @@ except Exception: HINTS = {}
 ND_PATH = os.path.join(VERIF, 'not_decided.json')
 try: NOT_DECIDED = json.load(open(ND_PATH))
 except Exception: NOT_DECIDED = {}
-STRATS = ['n', 'p', 'nk', 'pk', 'nkg', 'nkG']   # n: one multi-path-merging BMC query; p: cbmc --paths lifo (no merging); *k: one query per event kind;
+STRATS = ['n', 'p', 'nk', 'pk', 'nkg', 'nkG']   # (A: non-event steps split per reference path incl. the throwing position; T: event steps split per throwing position)
+# n: one multi-path-merging BMC query; p: cbmc --paths lifo (no merging); *k: one query per event kind;
 # g: additionally case-split on the first guard site the reference consults; G: on all sites it consults (one query per reference path;
 # payload and all other guard bits stay symbolic)
 
@@ -103,7 +104,7 @@ def attempt(job, strat, timeout):
         if has_ev: subs += [(k, gfix, 0 if nalt > 1 else None) for k in range(job.unit.nevents) for gfix in guard_splits(job, strat, k)]
         for a in range(1 if has_ev else 0, nalt):
             dl = (ix.get('decs_by_alt') or {}).get(a) or (ix.get('decs_by_alt') or {}).get(str(a)) or []
-            if 'G' in strat and dl:
+            if 'A' in strat and dl:
                 # one query per reference path of a non-event step: consulted guard sites fixed; the throwing position fixed to the
                 # one the path throws at, or constrained to be none of the positions the path passes (complete partition)
                 seen_ = set()
@@ -281,7 +282,7 @@ class Check:
             if unw: inconclusive.append((j, 'unwinding bound too small: %s' % unw[0][1])); continue
             for cex in j.cex:
                 u = j.unit
-                rec = {'property': s.prop, 'program': u.name, 'be': u.be, 'backend': BE_NAMES.get(u.be, str(u.be)), 'harness': j.h,
+                rec = {'property': s.prop, 'tier': s.tier, 'program': u.name, 'be': u.be, 'backend': BE_NAMES.get(u.be, str(u.be)), 'harness': j.h,
                        'conf': u.index[j.h]['conf'], 'script': u.index[j.h]['script'], 'label': cex['label'],
                        'inputs': cex['inputs'], 'unit_opts': getattr(u, 'spec', None)}
                 if cex['inputs'] is None:
